@@ -146,5 +146,14 @@ CHECKS["C10"] = {
     "quick": {"checks": 150, "timeout": 1500},
     "thorough": {"checks": 4000, "timeout": 3400, "shards": 8},
 }
+CHECKS["C06"] = {
+    "pkg": "./props/c06",
+    "level": "exploration",
+    "technique": "history-based property testing (rapid): concurrent request mixes against the real daemon under injected audit-sink faults; invariants over responses and the audit file",
+    "level_text": "Histories of 1-24 /sign requests (valid, via an alias, unknown key, key of a role the client lacks, unknown signature type, unknown digest, body the signer rejects) are issued by 1-16 concurrent TLS clients to the real daemon while the audit configuration is in one of: writable file, file in a missing directory, a directory in place of the file, /dev/full (ENOSPC), AMQP broker refusing connections, file plus refusing broker. Each request carries a unique file name. Invariants: every 2xx response has exactly one record, already present in the file when the response arrives, naming the resolved key, signature type, digest, certificate fingerprint, client name, client address and file name; failed requests leave no record; record count = 2xx count; every line is exactly one JSON object; with any sink failing no 2xx is returned. The relic binary is run with the same sink states: exit status 0 iff exactly one new, correct record.",
+    "level_note": "Successful AMQP delivery cannot be exercised offline. Runs as root, so permission-based faults are replaced by structural ones (directory in place of the file, /dev/full).",
+    "quick": {"checks": 150, "timeout": 1200},
+    "thorough": {"checks": 5000, "timeout": 3400, "shards": 8},
+}
 for _pid in CHECKS:
     NOT_APPLICABLE.pop(_pid, None)
